@@ -371,6 +371,8 @@ fn families(quick: bool) -> Vec<LmFamily> {
         Dom::Free,
         Dom::NonNeg,
         Dom::NonNegB(1.0, 4.0),
+        Dom::NonNegB(-2.5, 5.0),
+        Dom::NonNegB(-1.0, f64::INFINITY),
         Dom::NonNegB(0.0, 1e20),
         Dom::Real(-1e25, 7.5),
         Dom::NonNegB(0.0, 2.5),
@@ -490,7 +492,7 @@ fn wide_case(i: u64) -> LmSpec {
 
 pub fn run(mut run: Run) -> ! {
     crate::core::silence_panics();
-    run.rule = "every member of finite LinearModel families (coefficient alphabet incl. -0.0, 1e-7, 1e9, 1/3 in objective/rows/rhs/offset; 13 domain forms (incl. finite bounds of 1e20 and -1e25); row-naming and variable-naming menus; min/max/satisfy; no-row models; wide models of 8..120 variables with short, 20-character and auxiliary-style names whose rows and objective mention every variable; plus the linear models compiled from the C02 objective family and the C01 constraint family) is exported with to_lp_format() and read back by an independent reader; distinct = canonical model text; non-trivial = export was readable".into();
+    run.rule = "every member of finite LinearModel families (coefficient alphabet incl. -0.0, 1e-7, 1e9, 1/3 in objective/rows/rhs/offset; 15 domain forms (incl. finite bounds of 1e20 and -1e25 and NonNegativeReal kinds with a negative lower bound); row-naming and variable-naming menus; min/max/satisfy; no-row models; wide models of 8..120 variables with short, 20-character and auxiliary-style names whose rows and objective mention every variable; plus the linear models compiled from the C02 objective family and the C01 constraint family) is exported with to_lp_format() and read back by an independent reader; distinct = canonical model text; non-trivial = export was readable".into();
     run.assume("independent reader of the CPLEX-LP subset (sections, optional row labels, signed terms with optional coefficients, objective constant, default bounds [0,+inf), free, +-infinity, Binary, General, End; expressions may continue over several lines); numbers must round-trip exactly (Rust prints shortest round-trip decimals)");
     run.assume("a variable that occurs nowhere in the file (all-zero coefficients, default range) is tolerated and counted");
     for fam in families(run.quick()) {
